@@ -188,6 +188,13 @@ def run(ck):
     from ..report import RuleView
     from . import c17
     c17.run(RuleView(ck, {"C17.2": "C11.8"}))
+    ck.clause("C11.11", "a confidence tie between a '+' and a '-' candidate is not decided by the strand")
+    from .c05 import best_candidate_tiebreak
+    best_candidate_tiebreak(ck, "C11.11")
+    ck.clause("C11.10", "positions are compared by coordinate on both axes, never by label number: label numbers descend along a "
+                        "reverse-strand query while its mirrored coordinates ascend (as C15.7)")
+    from .c15 import comparators
+    comparators(ck, "C11.10")
     ck.clause("C11.9", "candidates of both strands are ordered by the strand-symmetric peak score, never by enumeration order "
                        "(forward before reverse): an exact confidence tie is not decided by the strand (as C16.1 / C05.4)")
     from .c05 import seeds
